@@ -70,6 +70,13 @@ theorem c13_t_fallback (val pf : List Nat) (b : Nat) (S : List Int) (I : Int) (h
       subst hc0
       simp
 
+private theorem wrapI32_succ (c n : Nat) (h : c < n) (hn : n < 2147483648) : wrapI32 ((c : Int) + 1) = ((c + 1 : Nat) : Int) := by
+  unfold wrapI32; omega
+private theorem wrapI32_nat (n : Nat) (hn : n < 2147483648) : wrapI32 (n : Int) = (n : Int) := by unfold wrapI32; omega
+private theorem wrapI64_succ (i k : Nat) (h : i + 1 + k < 4611686018427387904) : wrapI64 ((i : Int) + 1) = ((i + 1 : Nat) : Int) := by
+  unfold wrapI64; omega
+private theorem len_step (i k : Nat) (h : i + (k + 1) < 4611686018427387904) : i + 1 + k < 4611686018427387904 := by omega
+
 /-- the translated text loop = `Kmp.findLoop` -/
 theorem c13_t_findLoop (val pf : List Nat) (S : List Int) (hl : val.length < 2147483648) (gas : Nat) (hg : val.length < gas) :
     ∀ (rest : List Nat) (i cur : Nat), cur < val.length → i + rest.length < 4611686018427387904 →
@@ -81,8 +88,8 @@ theorem c13_t_findLoop (val pf : List Nat) (S : List Int) (hl : val.length < 214
   | nil => intro i cur _ _ _ _; simp [T.findSubstring_loop0, findLoop, ints]
   | cons b rest ih =>
     intro i cur hcur hi hok hdone
-    have hi' : i + 1 + rest.length < 4611686018427387904 := by simp only [List.length_cons] at hi; omega
-    have hi2 : i + 1 < 9223372036854775807 := by omega
+    have hi' : i + 1 + rest.length < 4611686018427387904 := len_step i rest.length (by simpa using hi)
+    have hwi : wrapI64 ((i : Int) + 1) = ((i + 1 : Nat) : Int) := wrapI64_succ i rest.length hi'
     have hcons : ints (b :: rest) = (b : Int) :: ints rest := by simp [ints]
     rw [hcons, T.findSubstring_loop0]
     simp only [findLoopOK, findLoopDone, kmpStepOK, stepDone, Bool.and_eq_true, decide_eq_true_eq] at hok hdone
@@ -93,29 +100,30 @@ theorem c13_t_findLoop (val pf : List Nat) (S : List Int) (hl : val.length < 214
     simp only [getD_of_lt _ _ _ hfin] at hrest hdrest ⊢
     generalize hc : fallback val pf b cur cur = c at *
     have hlen : len (ints val) = (val.length : Int) := len_ints val
-    have hwl : wrapI32 (val.length : Int) = (val.length : Int) := by unfold wrapI32; omega
-    have hw1 : wrapI32 ((c : Int) + 1) = ((c + 1 : Nat) : Int) := by unfold wrapI32; omega
-    have hwi : wrapI64 ((i : Int) + 1) = ((i + 1 : Nat) : Int) := by clear hi hi' hrest hdrest; unfold wrapI64; omega
+    have hwl : wrapI32 (val.length : Int) = (val.length : Int) := wrapI32_nat _ hl
+    have hw1 : wrapI32 ((c : Int) + 1) = ((c + 1 : Nat) : Int) := wrapI32_succ c val.length hfin hl
     by_cases hb : b = val[c]
-    · have hb' : (b : Int) = (val[c] : Int) := by omega
+    · have hb' : (b : Int) = (val[c] : Int) := Int.natCast_inj.mpr hb
       simp only [if_pos hb, if_pos hb', hw1, hlen, hwl, hwi] at hrest hdrest ⊢
       by_cases he : c + 1 = val.length
-      · have he' : ((c + 1 : Nat) : Int) = (val.length : Int) := by omega
+      · have he' : ((c + 1 : Nat) : Int) = (val.length : Int) := Int.natCast_inj.mpr he
         simp only [if_pos he, if_pos he']
-      · have he' : ¬ (((c + 1 : Nat) : Int) = (val.length : Int)) := by omega
+      · have he' : ¬ (((c + 1 : Nat) : Int) = (val.length : Int)) := fun h => he (Int.natCast_inj.mp h)
         simp only [if_neg he, if_neg he'] at hrest hdrest ⊢
         have := ih (i + 1) (c + 1) (Nat.lt_of_le_of_ne (Nat.succ_le_of_lt hfin) he) hi' hrest hdrest
-        simpa using this
-    · have hb' : ¬ ((b : Int) = (val[c] : Int)) := by omega
+        simp only [Int.natCast_add, Int.natCast_one] at this ⊢
+        exact this
+    · have hb' : ¬ ((b : Int) = (val[c] : Int)) := fun h => hb (Int.natCast_inj.mp h)
       simp only [if_neg hb, if_neg hb', hlen, hwl, hwi] at hrest hdrest ⊢
-      have he : ¬ (c = val.length) := by omega
-      have he' : ¬ ((c : Int) = (val.length : Int)) := by omega
+      have he : ¬ (c = val.length) := Nat.ne_of_lt hfin
+      have he' : ¬ ((c : Int) = (val.length : Int)) := fun h => he (Int.natCast_inj.mp h)
       simp only [if_neg he, if_neg he'] at hrest hdrest ⊢
       have := ih (i + 1) c hfin hi' hrest hdrest
-      simpa using this
+      simp only [Int.natCast_add, Int.natCast_one] at this ⊢
+      exact this
 
 /-- the fall-back loops of a search with a proper prefix-function table end by their condition -/
-theorem findLoop_done (p pf : List Nat) (hpf : PfOK p pf p.length) (hpl : p.length ≤ pf.length) :
+theorem c13_t_findLoop_done (p pf : List Nat) (hpf : PfOK p pf p.length) (hpl : p.length ≤ pf.length) :
     ∀ (rest done : List Nat) (cur : Nat), IsMax p done cur → cur < p.length → findLoopDone p pf rest cur = true := by
   intro rest
   induction rest with
@@ -145,9 +153,83 @@ theorem c13_t_findSubstring (p s : List Nat) (hp : p ≠ []) (hl : p.length < 21
   have hall := calcPrefFunc_all p hp
   have hpos : 0 < p.length := List.length_pos_iff.mpr hp
   have hok := (kmp_in_range p hp).2 s
-  have hdone := findLoop_done p (calcPrefFunc p) hall.1 (by rw [hall.2.1]; exact Nat.le_refl _) s [] 0 (IsMax_nil p) hpos
+  have hdone := c13_t_findLoop_done p (calcPrefFunc p) hall.1 (by rw [hall.2.1]; exact Nat.le_refl _) s [] 0 (IsMax_nil p) hpos
   have := c13_t_findLoop p (calcPrefFunc p) (ints s) hl gas hg s 0 0 hpos (by omega) hok hdone
   unfold T.findSubstring Kmp.findSubstring
   simpa using this
+
+/-- a fragment as `newSubstringPattern` builds it: non-empty, shorter than 2^31, with its prefix function -/
+def PatOK (t : SubPat) : Prop := t.val ≠ [] ∧ t.val.length < 2147483648 ∧ t.pf = calcPrefFunc t.val
+
+private theorem find_le (s : List Nat) (t : SubPat) (ht : PatOK t) (e : Nat) (h : Kmp.findSubstring s t = some e) :
+    e ≤ s.length := by
+  obtain ⟨hne, _, hpf⟩ := ht
+  have ht' : t = ⟨t.val, calcPrefFunc t.val⟩ := by cases t; simp_all
+  rw [ht', kmp_first_occurrence _ s hne] at h
+  obtain ⟨⟨x, hx, he⟩, _⟩ := Greedy.findEnd_some t.val s e h
+  have := congrArg List.length hx
+  simp only [List.length_append] at this
+  omega
+
+private theorem wrapI64_succ' (c n : Nat) (h : c < n) (hn : n < 4611686018427387904) : wrapI64 ((c : Int) + 1) = ((c + 1 : Nat) : Int) := by
+  unfold wrapI64; omega
+
+/-- the loop of `findSequence` = `Kmp.findSequence` on the remaining fragments -/
+theorem c13_t_findSequence_loop (pats : List SubPat) (hp : ∀ t, t ∈ pats → PatOK t) (gas : Nat)
+    (hg : ∀ t, t ∈ pats → t.val.length < gas) (hn : pats.length < 4611686018427387904) :
+    ∀ (fuel cur : Nat) (s : List Nat), cur + fuel = pats.length → s.length < 4611686018427387904 →
+      T.findSequence_loop0 gas pats (fun t => ints t.pf) (fun t => ints t.val) fuel (ints s) cur
+        = some ((cur + Kmp.findSequence s (pats.drop cur) : Nat) : Int) := by
+  intro fuel
+  induction fuel with
+  | zero =>
+    intro cur s hc _
+    have : pats.drop cur = [] := List.drop_of_length_le (by omega)
+    rw [T.findSequence_loop0, this]
+    have hz : Kmp.findSequence s [] = 0 := by cases s <;> rfl
+    simp only [len, hz]
+    congr 1; omega
+  | succ fuel ih =>
+    intro cur s hc hs
+    have hlt : cur < pats.length := by omega
+    have hlt' : (cur : Int) < len pats := by unfold len; omega
+    have hd : pats.drop cur = pats[cur] :: pats.drop (cur + 1) := (List.drop_eq_getElem_cons hlt)
+    have hok := hp _ (List.getElem_mem hlt)
+    have hgas := hg _ (List.getElem_mem hlt)
+    obtain ⟨hne, hl31, hpf⟩ := hok
+    rw [T.findSequence_loop0, hd]
+    simp only [if_pos hlt', idx_natCast, List.getElem?_eq_getElem hlt, Option.bind_some, hpf]
+    rw [c13_t_findSubstring _ s hne hl31 hs gas hgas]
+    have ht' : pats[cur] = ⟨pats[cur].val, calcPrefFunc pats[cur].val⟩ := by
+      cases h : pats[cur]; rw [h] at hpf; simp_all
+    simp only [Option.bind_some]
+    cases hf : Kmp.findSubstring s ⟨pats[cur].val, calcPrefFunc pats[cur].val⟩ with
+    | none =>
+      have hm : Kmp.findSequence s (pats[cur] :: pats.drop (cur + 1)) = 0 := by
+        rw [ht']; cases s <;> simp [Kmp.findSequence, hf]
+      simp only [hm, if_true, Nat.add_zero]
+    | some e =>
+      have hle : e ≤ s.length := find_le s ⟨pats[cur].val, calcPrefFunc pats[cur].val⟩ ⟨hne, hl31, rfl⟩ e hf
+      have hne1 : ¬ ((e : Int) = -1) := by omega
+      have hls : len (ints s) = (s.length : Int) := len_ints s
+      have g : ¬ ¬ ((0 : Int) ≤ (e : Int) ∧ (e : Int) ≤ len (ints s) ∧ len (ints s) ≤ len (ints s)) := by
+        rw [hls]; omega
+      have hsl : slice (ints s) (e : Int) (len (ints s)) = ints (s.drop e) := by
+        rw [hls, slice_ints]; simp
+      have hw := wrapI64_succ' cur pats.length hlt hn
+      have hm : Kmp.findSequence s (pats[cur] :: pats.drop (cur + 1)) = 1 + Kmp.findSequence (s.drop e) (pats.drop (cur + 1)) := by
+        rw [ht']; cases s <;> simp [Kmp.findSequence, hf]
+      simp only [if_neg hne1, if_neg g, hsl, hw, hm]
+      rw [ih (cur + 1) (s.drop e) (by omega) (by simp; omega), Nat.add_assoc]
+
+/-- **`findSequence`**: for fragments built by `newSubstringPattern`, any text below 2^62 bytes and `gas` above every
+fragment's length: no panic, and the number of fragments found is the model's -/
+theorem c13_t_findSequence (pats : List SubPat) (s : List Nat) (hp : ∀ t, t ∈ pats → PatOK t) (gas : Nat)
+    (hg : ∀ t, t ∈ pats → t.val.length < gas) (hn : pats.length < 4611686018427387904)
+    (hs : s.length < 4611686018427387904) :
+    T.findSequence gas (ints s) pats (fun t => ints t.pf) (fun t => ints t.val) = some (Kmp.findSequence s pats : Int) := by
+  unfold T.findSequence
+  have := c13_t_findSequence_loop pats hp gas hg hn pats.length 0 s (by omega) hs
+  simpa [len] using this
 
 end SV.Props.C13
